@@ -266,6 +266,15 @@ class Batch:
                         e["cbs"].append(dict(k="msg", o=0, var="", val=0, seen=True))
                         e["msgs"].append(self.intern([c.get("type"), c.get("text")]))
                 e["vm"] = {k: self.intern(v) for k, v in ((r.get("obs") or {}).get("vars") or {}).items()}
+            # C13: marker words of warning lines in the delivered text, and the temporaries that the messages seen by the
+            # host (handler, error result, readable lists) complain about
+            e["marks"], e["wvars"] = [], []
+            if self.rich:
+                texts = [x[0] for x in r.get("lines", [])] if "lines" in r else [r.get("val")]
+                e["marks"] = sorted({int(k) for t in texts if isinstance(t, str) for k in re.findall(r"wrn(\d+)", t)})
+                heard = [c.get("text", "") for c in (r.get("cb") or []) if c.get("k") not in ("obs", "ext")]
+                heard += [r.get("errmsg") or ""] + list((r.get("obs") or {}).get("warnings") or []) + list((r.get("obs") or {}).get("errors") or [])
+                e["wvars"] = sorted({int(k) for t in heard if isinstance(t, str) for k in re.findall(r"wt(\d+)", t)})
             e["ja"] = e["jb"] = 0
             if cls == "jumpreset" and r.get("obs") and prev_obs.get(e["i"]):
                 tgt = op.get("path", "").split(".")[0]
